@@ -200,4 +200,5 @@ def main():
     json.dump(out, sys.stdout)
 
 
-main()
+if __name__ == "__main__":
+    main()
